@@ -343,17 +343,18 @@ def defer():
                     if fired.get(i) != occurrence:
                         fired[i] = occurrence
 
-                        if t not in que:
-                            que.append(t)
-                            que.sort(key=lambda i: i.get('level'))
-                            t.set('status', State.waiting)
-
                         t.set('event', 'Periodic timer')
 
                         if _is_asp(t):
                             t.get('todo').add('__all__')
                         else:
                             t.get('todo').update(dawgie.db.targets())
+
+                        # without any target there is nothing to queue
+                        if t not in que and t.get('todo'):
+                            que.append(t)
+                            que.sort(key=lambda i: i.get('level'))
+                            t.set('status', State.waiting)
 
                         log.debug(
                             'defer() - moving task %s to the job queue', t.tag
